@@ -11,11 +11,32 @@ import (
 	"testing"
 	"unicode"
 
+	"github.com/wollac/iota-crypto-demo/pkg/bip39/wordlist"
 	"golang.org/x/text/unicode/norm"
 )
 
 var curLang = ""
 var rec *vRec
+
+// customList: a run-time registered word list (growth of the specification: the registry is spec state)
+type customList struct{ words []string }
+
+func (c *customList) Contains(w string) bool { return c.Index2(w) >= 0 }
+func (c *customList) Word(i int) string       { return c.words[i] }
+func (c *customList) Index(w string) int {
+	if i := c.Index2(w); i >= 0 {
+		return i
+	}
+	panic("unknown word")
+}
+func (c *customList) Index2(w string) int {
+	for i, x := range c.words {
+		if x == w {
+			return i
+		}
+	}
+	return -1
+}
 
 func wordsOut(ws []string) [][]int {
 	r := make([][]int, len(ws))
@@ -125,6 +146,14 @@ func runF(op string, in M) (M, M) {
 			out["words"] = wordsOut(dumpWords())
 		}
 		return out, M{}
+	case "bip39.RegisterWordList":
+		lang := in["lang"].(string)
+		var ws []string
+		for _, x := range in["words"].([]interface{}) {
+			ws = append(ws, string(vBytes(x)))
+		}
+		p := vCatch(func() { RegisterWordList(lang, func() wordlist.List { return &customList{ws} }) })
+		return M{"panic": p}, M{}
 	case "bip39.EntropyToMnemonic":
 		ent := vBytes(in["entropy"])
 		keep := append([]byte{}, ent...)
@@ -174,7 +203,7 @@ func runF(op string, in M) (M, M) {
 
 func emit(op string, in M) M {
 	in = vNorm(in)
-	if op != "bip39.SetWordList" && op != "bip39.ParseMnemonic" {
+	if op != "bip39.SetWordList" && op != "bip39.ParseMnemonic" && op != "bip39.RegisterWordList" {
 		if l, ok := in["lang"].(string); ok && l != curLang {
 			setLang(l)
 		}
@@ -217,6 +246,26 @@ func nfkdSpacers() []string {
 	return res
 }
 
+func vBytesOfInts(a []int) []byte {
+	b := make([]byte, len(a))
+	for i, x := range a {
+		b[i] = byte(x)
+	}
+	return b
+}
+
+func fullWidth(w string) string {
+	var sb strings.Builder
+	for _, c := range w {
+		if c >= '!' && c <= '~' {
+			sb.WriteRune(c - '!' + 0xff01)
+		} else {
+			sb.WriteRune(c)
+		}
+	}
+	return sb.String()
+}
+
 func chain(r *rand.Rand, ent []byte, full bool) {
 	out := emit("bip39.EntropyToMnemonic", M{"entropy": vInts(ent)})
 	if out["ok"] != true {
@@ -241,6 +290,47 @@ func chain(r *rand.Rand, ent []byte, full bool) {
 	}
 	mut(func(w [][]int) [][]int { w[r.Intn(n)] = vInts([]byte(all[r.Intn(2048)])); return w })
 	mut(func(w [][]int) [][]int { w[r.Intn(n)] = vInts([]byte("notaword")); return w })
+	// every bit of the embedded checksum matters: flip each of the ENT/32 checksum bits through the last word
+	idxOf := map[string]int{}
+	for i, w := range all {
+		idxOf[w] = i
+	}
+	for b := 0; b < n/3; b++ {
+		pos, bit := n-1, uint(b) // checksum bit b (from the end) lives in the last word, or in the one before it if b >= 11
+		if b >= 11 {
+			pos, bit = n-2, uint(b-11)
+		}
+		mut(func(w [][]int) [][]int {
+			w[pos] = vInts([]byte(all[idxOf[string(vBytesOfInts(w[pos]))]^(1<<bit)]))
+			return w
+		})
+	}
+	// a word spelled differently but Unicode-equivalent (NFC / full-width) is not a list word
+	mut(func(w [][]int) [][]int {
+		i := r.Intn(n)
+		orig := string(vBytesOfInts(w[i]))
+		alt := norm.NFC.String(orig)
+		if alt == orig {
+			alt = fullWidth(orig)
+		}
+		w[i] = vInts([]byte(alt))
+		return w
+	})
+	// a sequence whose printed form equals the valid sentence but whose first element holds two words
+	mut(func(w [][]int) [][]int {
+		joined := append(append(append([]int{}, w[0]...), 32), w[1]...)
+		return append([][]int{joined}, w[2:]...)
+	})
+	// history: the same words again after the valid decode (must give the same answer), then under the other list, then back
+	emit("bip39.MnemonicToEntropy", M{"words": ws})
+	if curLang == "english" || curLang == "japanese" {
+		back := curLang
+		other := map[string]string{"english": "japanese", "japanese": "english"}[back]
+		emit("bip39.SetWordList", M{"lang": other})
+		emit("bip39.MnemonicToEntropy", M{"words": ws, "lang": other})
+		emit("bip39.SetWordList", M{"lang": back})
+		emit("bip39.MnemonicToEntropy", M{"words": ws, "lang": back})
+	}
 	mut(func(w [][]int) [][]int { return w[:n-1] })
 	mut(func(w [][]int) [][]int { return append(w, w[0]) })
 	mut(func(w [][]int) [][]int { return append(w, w[0], w[1], w[2]) })
@@ -306,6 +396,29 @@ func TestVerifDriver(t *testing.T) {
 				}
 			}
 		}
+		// a list registered at run time: the English words in reverse order with a suffix
+		{
+			setLang("english")
+			eng := dumpWords()
+			custom := make([][]int, 2048)
+			for i := range custom {
+				custom[i] = vInts([]byte(eng[2047-i] + "x"))
+			}
+			rec.newTrace()
+			emit("bip39.SetWordList", M{"lang": "custom"})       // not registered yet: must fail
+			emit("bip39.RegisterWordList", M{"lang": "custom", "words": custom})
+			emit("bip39.SetWordList", M{"lang": "custom"})
+			for k := 0; k < 6; k++ {
+				ent := make([]byte, lens[r.Intn(len(lens))])
+				r.Read(ent)
+				if k%2 == 0 {
+					ent[0] = 0
+				}
+				chain(r, ent, k == 0)
+			}
+			emit("bip39.SetWordList", M{"lang": "english"})
+			chain(r, make([]byte, 16), false)
+		}
 		// every word index of each list at least once (thorough: all, quick: a stride)
 		stride := vEnvInt("VERIF_STRIDE", 16)
 		for _, lg := range langs {
@@ -341,6 +454,29 @@ func TestVerifDriver(t *testing.T) {
 				}
 				if k%7 == 3 { // invalid mnemonic
 					ws[len(ws)-1] = vInts([]byte(dumpWords()[r.Intn(2048)]))
+				}
+				if k%7 == 6 { // exactly one checksum bit wrong (the highest one for long sentences)
+					all := dumpWords()
+					b := len(m)/3 - 1 - r.Intn(2)
+					pos, bit := len(m)-1, uint(b)
+					if b >= 11 {
+						pos, bit = len(m)-2, uint(b-11)
+					}
+					for i, w := range all {
+						if w == m[pos] {
+							ws[pos] = vInts([]byte(all[i^(1<<bit)]))
+							break
+						}
+					}
+				}
+				if k%9 == 4 { // history: a valid sentence, then the same sentence under the other word list
+					emit("bip39.MnemonicToSeed", M{"words": ws, "pass": vInts([]byte("x"))})
+					other := map[string]string{"english": "japanese", "japanese": "english"}[lg]
+					emit("bip39.SetWordList", M{"lang": other})
+					emit("bip39.MnemonicToSeed", M{"words": ws, "pass": vInts([]byte("x")), "lang": other})
+					joined := append(append(append([]int{}, ws[0]...), 32), ws[1]...)
+					emit("bip39.SetWordList", M{"lang": lg})
+					emit("bip39.MnemonicToSeed", M{"words": append([][]int{joined}, ws[2:]...), "pass": vInts([]byte("x")), "lang": lg})
 				}
 				if k%11 == 5 {
 					ws = ws[:len(ws)-1]
